@@ -17,14 +17,31 @@ def main(tier, replay):
     tie_t = gen_gate.gate(chk, kernels=["find_basic_view_segment_numbers", "num_related_view_segment_numbers", "subset_num_fixed"])
     stats = vlib.run_differential(chk, PROP, "c06_subsets", tier)
     vlib.standard_coverage(chk, stats,
-        "real DataSymmetriesForBins_PET_CartesianGrid / find_basic_vs_nums_in_subset / subsets_are_approximately_balanced / "
+        "real DataSymmetriesForBins_PET_CartesianGrid / TrivialDataSymmetriesForBins / find_basic_vs_nums_in_subset / subsets_are_approximately_balanced / "
         "IterativeReconstruction::get_subset_num (rand() scripted) on generated geometries: views 1..24 + seeded sample up to 96 (thorough: all 1..96), "
         "all 8 requested symmetry-flag combinations, TOF and non-TOF, every (view,segment): basic/related/count; subsets n (all n<=6, divisors, sample; thorough: all n) "
-        "x every subset; balanced flag; schedules. One line per operation, compared with the Lean model's answer; distinct = distinct (op) lines; "
-        "the oracle counts (view,segment) multiplicities over all subsets on the implementation.")
+        "x every subset; balanced flag before set_up (non-TOF, explicit max segment) and after the objective function's set_up (`balancedsu`: default "
+        "max_segment_num_to_process=-1, explicit and too large values, TOF and non-TOF, with/without subset sensitivities); schedules of get_subset_num (`sched`). "
+        "`recon`: the real OSMAPOSLReconstruction set_up + reconstruct on small PET data (matrix projectors, 2..16 views, 1..2 rings, TOF in 1/5 of the cases) with random "
+        "num_subsets / start_subset_num / start_subiteration_num / num_subiterations / randomise flag (rand() scripted) and malformed parameters; the subset number of "
+        "every sub-iteration is recorded by a wrapping objective function (the real PoissonLogLikelihoodWithLinearModelForMeanAndProjData, balance test real or forced) "
+        "and compared with the model's schedule, set-up failures (parameter ranges, unbalanced subsets) included; runs with randomised order that start inside an "
+        "iteration are executed in a child process (the library indexes an empty array there: known finding / fix C06-1), compared only as `ub` and from the next full "
+        "iteration on. `bp`/`fp`: BackProjectorByBin::back_project(ProjData, subset, n) and ForwardProjectorByBin::forward_project(ProjData, image, subset, n, zero=false) "
+        "of the matrix projectors on 2..20 views x 1..3 rings x TOF(3/5 bins)/non-TOF x symmetry flags: every viewgram read / written is recorded by a wrapping ProjData and the "
+        "(view, segment, TOF bin) lists are compared with the model. One line per operation, compared with the Lean model's answer; distinct = distinct (op) lines. "
+        "Oracles on the implementation: (view,segment) multiplicities over all subsets; balanced flag = equal per-subset viewgram counts; every full iteration of a real run is a "
+        "permutation of the subsets, one objective-function call per sub-iteration, every subset sensitivity computed once; viewgrams read/written over all subsets = every "
+        "(segment, view, TOF bin) exactly once; sum of the subset back projections = back projection viewgram by viewgram within 4*#bins*2^-24*value (all terms >= 0; all-ones "
+        "and per-viewgram coded data); forward projection by subsets = viewgram-by-viewgram forward projection bitwise.")
     chk.coverage["tie_T_translator"] = tie_t
-    chk.assumptions += ["rand() is a parameter (scripted)", "view range is 0..V-1 (always the case for STIR projection data)",
-                        "32-bit overflow not modelled"]
+    chk.assumptions += ["rand() is a parameter (scripted; the float expression (int)((float)rand()/RAND_MAX*(n-i)) is evaluated by the harness)",
+                        "view range is 0..V-1 (always the case for STIR projection data)",
+                        "32-bit overflow not modelled",
+                        "the reconstruction object is freshly constructed for every run (no reuse of _current_subset_array between runs); one get_subset_num call per "
+                        "sub-iteration (OSMAPOSL; OSSPS calls it the same way but is not run here)",
+                        "projector loops observed for the matrix projectors (ProjMatrixByBinUsingRayTracing) in the serial build; the OpenMP variants of the loops are C18's subject",
+                        "symmetric TOF range (min_tof_pos_num = -max_tof_pos_num), which is what ProjDataInfo constructs"]
     if audit:
         vlib.proof_coverage(chk, audit, "cd lean && lake build StirVerif stirdriver && lake env lean ../build/out/Audit_C06.lean")
     return chk.finish()
